@@ -63,6 +63,12 @@ def leaf_text(p, x):
         return base64.b64encode(x).decode()
     if p == 'DateTime' and isinstance(x, datetime.datetime):
         return x.isoformat()
+    if p == 'Decimal' and isinstance(x, decimal.Decimal) and x.is_finite():
+        # equality is numeric: 1.50 and 1.5 are the same value
+        s = format(x, 'f')
+        if '.' in s:
+            s = s.rstrip('0').rstrip('.')
+        return s
     return E.lex(x)
 
 
@@ -156,8 +162,11 @@ def tokens(body):
         if e.get('{%s}nil' % XSI) == 'true':
             out.append(['NIL'])
         kids = [c for c in e if isinstance(c.tag, str)]
-        if not kids and e.text is not None and e.text != '':
-            out.append(['T', e.text])
+        if not kids:
+            # character data of a leaf: all text nodes (comments and PIs interrupt, they do not end it)
+            txt = (e.text or '') + ''.join((c.tail or '') for c in e)
+            if txt != '':
+                out.append(['T', txt])
         for c in kids:
             walk(c)
         out.append(['E'])
@@ -169,7 +178,25 @@ def style_of(case):
     return case.get('style', 'wrapped')
 
 
-def args_for_enc(case):
+def to_raw_value(t, v):
+    """TLA value -> native tree whose leaves are the exact request spellings (enc.Raw)"""
+    if v == ['nil']:
+        return None
+    k = t['k']
+    if v[0] == 'seq' and k != 'arr':
+        return [to_raw_value(t, x) for x in v[1]]
+    if k in ('prim', 'attr'):
+        return E.Raw(v[1])
+    if k == 'arr':
+        return [to_raw_value(t['of'], x) for x in v[1]]
+    if k == 'obj':
+        return {f['n']: to_raw_value(f['t'], x) for f, x in zip(flat_fields(t), v[2])}
+    raise ValueError(t)
+
+
+def args_for_enc(case, spelled=False):
+    if spelled:
+        return [(f['n'], texpr(f['t'], f), to_raw_value(f['t'], v)) for f, v in zip(case['args'], case['reqvals'])]
     return [(f['n'], texpr(f['t'], f), to_wire_value(f['t'], v)) for f, v in zip(case['args'], case['vals'])]
 
 
